@@ -28,8 +28,12 @@ def evaluate(case):
     x, y, xo, dy = [None if a is None else np.asarray(a, dtype=float) for a in case["args"]]
     kw = case["kw"]
     fails = []
+    snap_in = [None if a is None else a.copy() for a in (x, y, xo, dy)]
     with np.errstate(all="ignore"):
         got = getattr(tr, name)(x, y, xo, dy, **kw)
+        for nm, a0, a1 in zip(("abscissa", "data", "output grid", "uncertainty"), snap_in, (x, y, xo, dy)):
+            if a0 is not None and not np.array_equal(a0, a1, equal_nan=True):
+                return [f"{name}: the call changes the caller's {nm} array (a second transform of the same arrays gets other input)"]
         kf = keyword_call_differs(tr, case["entry"], [x, y, xo, dy], kw, got)
         if kf:
             fails.append(kf)
